@@ -1,7 +1,9 @@
 //@unit dns_jitter props=C34
 // C34 (reduced scope) — add_jitter never panics and stays within +/-20% of the delay.
 use vstd::prelude::*;
+use vstd::std_specs::cmp::OrdSpec;
 verus! {
+//@include shims/std_wide.rs
 //@include shims/time.rs
 use time::Duration;
 pub mod rand {
